@@ -53,32 +53,45 @@ theorem viewBytes_packExtern (buf value : Bytes) (hlen : 12 < value.length) (hsm
     viewBytes (buf ++ value) (packExtern value 0 buf.length) = value := by
   simp only [viewBytes, Lemmas.C03.decodeView_extern buf value hlen hsmall]
 
-/-- `push_scalar_value`: one more descriptor, the buffer possibly extended, and — while the buffer stays below
-4 GiB — the descriptor designates exactly the pushed bytes -/
-theorem viewPushValue_exact (views : List Nat) (buf value : Bytes) :
-    ∃ d extra, viewPushValue views buf value = (views ++ [d], buf ++ extra) ∧
-      (decodeView [buf ++ extra] d).isOk = true ∧
-      ((buf ++ extra).length < 2 ^ 32 → viewBytes (buf ++ extra) d = value) := by
-  unfold viewPushValue
-  split
-  · rename_i h
-    exact ⟨packInline value, [], by simp, decodeView_inline_isOk _ _ h, fun _ => viewBytes_packInline _ _ h⟩
-  · rename_i h
-    exact ⟨packExtern value 0 buf.length, value, rfl, decodeView_extern_isOk _ _,
-      fun hs => viewBytes_packExtern buf value (by omega) hs⟩
+/-- the descriptor a successful push wrote designates exactly the pushed bytes (`viewPushValue_ok` / `viewSeq_ok`:
+an out-of-line value is only accepted while length and offset are ≤ `i32::MAX`, so nothing is truncated) -/
+theorem view_value_exact {buf value extra : Bytes} {d : Nat}
+    (h : (d = packInline value ∧ extra = [] ∧ value.length ≤ 12) ∨
+      (d = packExtern value 0 buf.length ∧ extra = value ∧ 12 < value.length ∧ (buf ++ value).length < 2 ^ 32)) :
+    viewBytes (buf ++ extra) d = value := by
+  rcases h with ⟨hd, he, hle⟩ | ⟨hd, he, hgt, hsm⟩
+  · rw [hd, he]; exact viewBytes_packInline _ _ hle
+  · rw [hd, he]; exact viewBytes_packExtern buf value hgt hsm
 
-/-- the row a value pushed into a bytes-view builder appends, under `ViewSmall` of the result -/
+/-- `push_scalar_value`: one more descriptor, the buffer possibly extended, the descriptor designates exactly the
+pushed bytes -/
+theorem viewPushValue_exact {views : List Nat} {buf value : Bytes} {r : List Nat × Bytes}
+    (h : viewPushValue views buf value = .ok r) :
+    ∃ d extra, r = (views ++ [d], buf ++ extra) ∧ (decodeView [buf ++ extra] d).isOk = true ∧
+      viewBytes (buf ++ extra) d = value := by
+  obtain ⟨d, extra, hr, hok, _, hc⟩ := viewPushValue_ok h
+  exact ⟨d, extra, hr, hok, view_value_exact hc⟩
+
+theorem viewSeq_exact {views : List Nat} {buf value : Bytes} {r : List Nat × Bytes}
+    (h : viewSeq views buf value = .ok r) :
+    ∃ d extra, r = (views ++ [d], buf ++ extra) ∧ (decodeView [buf ++ extra] d).isOk = true ∧
+      viewBytes (buf ++ extra) d = value := by
+  obtain ⟨d, extra, hr, hok, _, hc⟩ := viewSeq_ok h
+  exact ⟨d, extra, hr, hok, view_value_exact hc⟩
+
+/-- the row a value pushed into a bytes-view builder appends (`hsm`: the buffer of the result is below 4 GiB — every
+successful push guarantees it, `WFB_small`) -/
 theorem view_push_row {p : String} {ty : ViewTy} {v : Validity} {views : List Nat} {buf : Bytes}
     (hwf : WFB (.bytesView p ty v views buf)) (value : Bytes) {d : Nat} {extra : Bytes}
     (hok : (decodeView [buf ++ extra] d).isOk = true)
-    (hval : (buf ++ extra).length < 2 ^ 32 → viewBytes (buf ++ extra) d = value)
+    (hval : viewBytes (buf ++ extra) d = value)
     (hsm : ViewSmall (.bytesView p ty (v.map (· ++ [true])) (views ++ [d]) (buf ++ extra))) :
     dec (.bytesView p ty (v.map (· ++ [true])) (views ++ [d]) (buf ++ extra)) =
       dec (.bytesView p ty v views buf) ++ [bytesVal (ty == .utf8View) value] := by
-  obtain ⟨_, g2⟩ := view_step hwf true d extra hok
-  rw [rowOf_true] at g2
   simp only [ViewSmall] at hsm
-  rw [g2, hval hsm]
+  obtain ⟨_, g2⟩ := view_step hwf true d extra hok hsm
+  rw [rowOf_true] at g2
+  rw [g2, hval]
 
 /-! ### placeholders and nulls (buffers are not touched) -/
 
@@ -190,12 +203,15 @@ theorem pushNone_small : ∀ (b : B) (b' : B), pushNone b = .ok b' → ViewSmall
 
 /-! ### scalars -/
 
-theorem viewPushValue_small (views : List Nat) (buf value : Bytes)
-    (h : (viewPushValue views buf value).2.length < 2 ^ 32) : buf.length < 2 ^ 32 := by
-  unfold viewPushValue at h
-  split at h
-  · exact h
-  · simp only [List.length_append] at h; omega
+theorem viewPushValue_small {views : List Nat} {buf value : Bytes} {r : List Nat × Bytes}
+    (hp : viewPushValue views buf value = .ok r) (h : r.2.length < 2 ^ 32) : buf.length < 2 ^ 32 := by
+  obtain ⟨d, extra, rfl, _⟩ := viewPushValue_ok hp
+  simp only [List.length_append] at h; omega
+
+theorem viewSeq_small {views : List Nat} {buf value : Bytes} {r : List Nat × Bytes}
+    (hp : viewSeq views buf value = .ok r) (h : r.2.length < 2 ^ 32) : buf.length < 2 ^ 32 := by
+  obtain ⟨d, extra, rfl, _⟩ := viewSeq_ok hp
+  simp only [List.length_append] at h; omega
 
 theorem pushScalar_small (ext : Ext) : ∀ (b : B) (x : SVal) (b' : B), pushScalar ext b x = .ok b' →
     ViewSmall b' → ViewSmall b
@@ -206,10 +222,11 @@ theorem pushScalar_small (ext : Ext) : ∀ (b : B) (x : SVal) (b' : B), pushScal
   | .bytesView p ty v views buf, x, b', h => by
     simp only [pushScalar] at h
     obtain ⟨bs, _, h2⟩ := (bind_ok _ _ _).1 h
+    obtain ⟨vp, hp, h2⟩ := (bind_ok _ _ _).1 h2
     obtain ⟨v', h3, h4⟩ := (bind_ok _ _ _).1 h2
     cases h4
     simp only [ViewSmall]
-    exact viewPushValue_small views buf bs
+    exact viewPushValue_small hp
   | .fixedSizeBinary p n len v buf cur, x, b', h => by simp [ViewSmall]
   | .dictionary p idx vals index, x, b', h => by
     unfold pushScalar at h
@@ -338,9 +355,10 @@ theorem seqLikeWith_small {pe : Bool → B → List Int → R (B × List Int)} {
     split at h
     · obtain ⟨v', h1, h⟩ := (bind_ok _ _ _).1 h
       obtain ⟨bs, _, h⟩ := (bind_ok _ _ _).1 h
+      obtain ⟨vp, hp, h⟩ := (bind_ok _ _ _).1 h
       cases h
-      simp only [ViewSmall, viewSeq_eq]
-      exact viewPushValue_small views buf bs
+      simp only [ViewSmall]
+      exact viewSeq_small hp
     · simp [notSupported, fail] at h
   | fixedSizeBinary p n len v buf cur => simp [ViewSmall]
   | struct p len v fs cached next seen =>
@@ -615,6 +633,42 @@ theorem pushMapOps_small (ext : Ext) : ∀ (ops : SMapOps) (offs : List Int) (ks
     intro hs
     have := pushMapOps_small ext rest offs ks vs' r h hs
     exact ⟨this.1, push_small ext x vs vs' h3 this.2⟩
+end
+
+end SaModel.Build
+
+/-! ### the state invariant implies `ViewSmall` -/
+
+namespace SaModel.Build
+open SaModel SaModel.Spec
+open SaModel.Lemmas.C03 (ViewSmall ViewSmallL)
+
+mutual
+/-- every well-formed builder state has its view buffers below 4 GiB: `WFB` carries the bound (a successful
+`push_scalar_value` / `end_seq` keeps length and offset ≤ `i32::MAX`) -/
+theorem WFB_small : ∀ (b : B), WFB b → ViewSmall b
+  | .null _ _, _ => by simp [ViewSmall]
+  | .unknownVariant _, _ => by simp [ViewSmall]
+  | .leaf _ _ _ _, _ => by simp [ViewSmall]
+  | .bytes _ _ _ _ _, _ => by simp [ViewSmall]
+  | .bytesView _ _ _ _ _, h => by simp only [WFB] at h; simp only [ViewSmall]; exact h.2.2
+  | .fixedSizeBinary _ _ _ _ _ _, _ => by simp [ViewSmall]
+  | .list _ _ _ _ _ el, h => by simp only [WFB] at h; simp only [ViewSmall]; exact WFB_small el h.2.2
+  | .fixedSizeList _ _ _ _ _ _ el, h => by simp only [WFB] at h; simp only [ViewSmall]; exact WFB_small el h.2.2
+  | .map _ _ _ _ ks vs, h => by
+    simp only [WFB] at h; simp only [ViewSmall]; exact ⟨WFB_small ks h.2.2.2.1, WFB_small vs h.2.2.2.2⟩
+  | .struct _ len _ fs _ _ _, h => by simp only [WFB] at h; simp only [ViewSmall]; exact WFL_small fs len h.2.1
+  | .dictionary _ idx vals _, h => by
+    simp only [WFB] at h; simp only [ViewSmall]; exact ⟨WFB_small idx h.1, WFB_small vals h.2.1⟩
+  | .union _ fs _ _ cur, h => by simp only [WFB] at h; simp only [ViewSmall]; exact WFU_small fs cur h.2.2.1
+theorem WFL_small : ∀ (fs : BL) (len : Nat), WFL fs len → ViewSmallL fs
+  | .nil, _, _ => by simp [ViewSmallL]
+  | .cons b _ r, len, h => by
+    simp only [WFL] at h; simp only [ViewSmallL]; exact ⟨WFB_small b h.1, WFL_small r len h.2.2⟩
+theorem WFU_small : ∀ (fs : BL) (cur : List Int), WFU fs cur → ViewSmallL fs
+  | .nil, _, _ => by simp [ViewSmallL]
+  | .cons b _ r, cur, h => by
+    simp only [WFU] at h; simp only [ViewSmallL]; exact ⟨WFB_small b h.1, WFU_small r cur.tail h.2.2⟩
 end
 
 end SaModel.Build
